@@ -217,6 +217,23 @@ static std::string handle(const std::string& cmd, const std::string& args) {
     double c = c_strtod(r.c_str(), &end, &er);
     return bits(back) == bits(c) ? "1" : "reparse gemmi=" + bits(back) + " strtod=" + bits(c);
   }
+  if (cmd == "o_buf") {          // the text plus its NUL fits the local buffer (size read from the source)
+    std::string kind = w.at(0);
+    size_t size = (size_t) to_ll(w.at(2));
+    std::string r;
+    if (kind == "d") r = gemmi::to_str(from_bits(w.at(1)));
+    else if (kind == "f") r = gemmi::to_str(ffrom_bits(w.at(1)));
+    else {
+      double d = from_bits(w.at(1));
+      switch ((int) to_ll(kind)) {
+        case 0: r = prec<0>(d); break; case 1: r = prec<1>(d); break; case 2: r = prec<2>(d); break;
+        case 3: r = prec<3>(d); break; case 4: r = prec<4>(d); break; case 5: r = prec<5>(d); break;
+        case 6: r = prec<6>(d); break; default: return "skip";
+      }
+    }
+    if (r.size() + 1 <= size) return "1";
+    return "wrote " + std::to_string(r.size() + 1) + " bytes into char[" + std::to_string(size) + "]: " + r;
+  }
   if (cmd == "o_snp") {          // snprintf_z(buf, count, fmt, d): C99 contract on a guarded buffer
     int count = (int) to_ll(w.at(0));
     int f = (int) to_ll(w.at(1));
